@@ -12,7 +12,7 @@ import (
 )
 
 func init() {
-	Register(&Scenario{Prop: "C11", Name: "abort-then-retry", Run: scenC11, Weight: 1,
+	Register(&Scenario{Prop: "C11", Name: "abort-then-retry", Run: scenC11, SoftParks: true, Weight: 1,
 		Rule: "source S with a chain or fork log of 2-6 entries and receiver R (ReplicationConcurrency in {1,2,32}; automatic replication switched off so that only explicit requests replicate); a sequence of 1-3 requests (Sync with its own context, or the blocking LoadMoreFrom), S possibly writing in between; ONE request is aborted at opportunity number j drawn per run, opportunities being counted as they occur: before the call, every arrival of one of R's goroutines at the hooks replicator.before-slot / after-dequeue / before-done / store.load-end, and every block request R registers; abort kind drawn per run: cancel the context, fail the block request, or let the virtual clock pass the context's deadline; parked goroutines and fetch completions are released in drawn order; finally an uncancelled Sync of S's current heads; oracle: at rest R holds every entry of S's log; non-trivial = the abort really happened at an opportunity >= 1 while the request was in flight"})
 }
 
